@@ -747,6 +747,9 @@ func main() {
 		os.Exit(2)
 	}
 	repo, out := os.Args[1], os.Args[2]
+	if err := os.MkdirAll(out, 0o755); err != nil {
+		fatal(err)
+	}
 	writeIfChanged(filepath.Join(out, "Access.lean"), genAccess(repo))
 	writeIfChanged(filepath.Join(out, "Purity.lean"), genPurity(repo))
 }
@@ -1236,6 +1239,46 @@ func genAccess(repo string) string {
 		p := f.decl.Type.Params.List
 		shared = len(p) >= 2 && len(p[1].Names) == 1 && strings.Contains(exprString(f.decl.Body), "databaseLock: "+p[1].Names[0].Name)
 	}
+	// channels of the DB object: field ← make expression (capacity matters: the flush hand-off must be unbuffered)
+	var chans []string
+	if f, ok := funcs["NewSimpleDB"]; ok {
+		makes := map[string]string{}
+		ast.Inspect(f.decl.Body, func(nd ast.Node) bool {
+			switch x := nd.(type) {
+			case *ast.AssignStmt:
+				if len(x.Lhs) == 1 && len(x.Rhs) == 1 {
+					if id, ok := x.Lhs[0].(*ast.Ident); ok {
+						if c, ok := x.Rhs[0].(*ast.CallExpr); ok {
+							if fn, ok := c.Fun.(*ast.Ident); ok && fn.Name == "make" && len(c.Args) > 0 {
+								if _, isChan := c.Args[0].(*ast.ChanType); isChan {
+									makes[id.Name] = exprString(c)
+								}
+							}
+						}
+					}
+				}
+			case *ast.KeyValueExpr:
+				if k, ok := x.Key.(*ast.Ident); ok {
+					if structs["DB"] != nil && structs["DB"].fields[k.Name] != "" && strings.HasPrefix(structs["DB"].fields[k.Name], "threadsafe") || (structs["DB"] != nil && strings.HasPrefix(structs["DB"].fields[k.Name], "chan:")) {
+						val := exprString(x.Value)
+						if id, ok := x.Value.(*ast.Ident); ok {
+							if m, ok := makes[id.Name]; ok {
+								val = m
+							}
+						}
+						if strings.Contains(val, "chan") {
+							chans = append(chans, fmt.Sprintf("(%s, %s)", leanStr(k.Name), leanStr(val)))
+						}
+					}
+				}
+			}
+			return true
+		})
+	}
+	sort.Strings(chans)
+	sb.WriteString("/-- the channels of a DB object as NewSimpleDB makes them: (field, make expression) — the capacity matters -/\n")
+	fmt.Fprintf(&sb, "def dbChannels : List (String × String) := [%s]\n\n", strings.Join(chans, ", "))
+
 	sb.WriteString("/-- `SSTableManager.databaseLock` is the very mutex `DB.rwLock` (constructor wiring) -/\n")
 	fmt.Fprintf(&sb, "def dbLockShared : Bool := %v\n\n", shared)
 	sb.WriteString("end SST.Generated\n")
